@@ -109,6 +109,23 @@ class SuperProxy:
         self.after = after
 
 
+class SymKey:
+    """wrapper that lets a symbolic number be a key of a native dict / member of a native set
+    (hash and == by identity of the wrapper; the interpreter compares the wrapped values symbolically)"""
+
+    __slots__ = ("v",)
+
+    def __init__(self, v):
+        self.v = v
+
+    def __repr__(self):
+        return "SymKey(%r)" % (self.v,)
+
+
+def unkey(k):
+    return k.v if type(k) is SymKey else k
+
+
 class ModelFn:
     """a library model: python callable (interp, args, kwargs) -> value"""
 
@@ -262,6 +279,27 @@ class Interp:
         mod = getattr(f, "__module__", None) or ""
         selfobj = getattr(f, "__self__", None)
         name = getattr(f, "__name__", repr(f))
+        if isinstance(selfobj, dict) and args and (type(args[0]) is Sym or any(type(k) is SymKey for k in selfobj)) and name in ("get", "pop", "setdefault", "__contains__", "__getitem__"):
+            k = self.dict_find(selfobj, args[0])
+            if name == "__contains__":
+                return k is not _MISSING
+            if name == "__getitem__":
+                return self.sym_dict_get(selfobj, args[0])
+            if name == "get":
+                return selfobj[k] if k is not _MISSING else (args[1] if len(args) > 1 else kwargs.get("default"))
+            if name == "pop":
+                if k is not _MISSING:
+                    return selfobj.pop(k)
+                if len(args) > 1:
+                    return args[1]
+                raise PyExc(KeyError, (args[0],))
+            if name == "setdefault":
+                if k is not _MISSING:
+                    return selfobj[k]
+                selfobj[SymKey(args[0]) if type(args[0]) is Sym else args[0]] = args[1] if len(args) > 1 else None
+                return args[1] if len(args) > 1 else None
+        if isinstance(selfobj, dict) and name in ("keys", "items") and any(type(k) is SymKey for k in selfobj):
+            return [unkey(k) for k in selfobj] if name == "keys" else [(unkey(k), v) for k, v in selfobj.items()]
         if (mod.startswith("numpy") or type(f).__name__ in ("ufunc", "_ArrayFunctionDispatcher")) and (
             has_sym(list(args)) or has_sym(kwargs)
         ):
@@ -995,9 +1033,9 @@ class Interp:
         if type(it) is Sym or it is None or isinstance(it, (int, float)):
             raise PyExc(TypeError, ("'%s' object is not iterable" % pytype(it).__name__,))
         if isinstance(it, dict):
-            return list(it)
+            return [unkey(k) for k in it]
         if isinstance(it, (set, frozenset)):
-            return list(it)
+            return [unkey(k) for k in it]
         try:
             return iter(it)
         except TypeError as e:
@@ -1566,6 +1604,8 @@ class Interp:
                 if acc is True:
                     return True
             return acc
+        if isinstance(container, dict) and (type(item) is Sym or any(type(k) is SymKey for k in container)):
+            return self.dict_find(container, item) is not _MISSING
         if isinstance(container, (dict, set, frozenset)) or isinstance(container, type({}.keys())) or isinstance(container, type({}.values())):
             if type(item) is Sym:
                 # membership of a symbolic number in a concrete key set
@@ -1610,11 +1650,11 @@ class Interp:
             if f is None:
                 raise PyExc(TypeError, ("'%s' object is not subscriptable" % o.cls.__name__,))
             return self.call(self.bind(f[0], o, f[1]), [i], {})
+        if isinstance(o, dict) and (type(i) is Sym or any(type(k) is SymKey for k in o)):
+            return self.sym_dict_get(o, i)
         if type(i) is Sym:
             if isinstance(o, (list, tuple)):
                 return self.sym_index(o, i)
-            if isinstance(o, dict):
-                return self.sym_dict_get(o, i)
             raise Unsupported("symbolic index into %r" % type(o))
         if type(o) is Sym or o is None:
             raise PyExc(TypeError, ("'%s' object is not subscriptable" % pytype(o).__name__,))
@@ -1634,12 +1674,34 @@ class Interp:
                 return seq[k]
         raise PyExc(IndexError, ("list index out of range",))
 
+    def dict_find(self, d, key):
+        """the stored key equal to `key` (forking on symbolic comparisons), or the sentinel _MISSING"""
+        if type(key) is not Sym and not any(type(k) is SymKey for k in d):
+            try:
+                return key if key in d else _MISSING
+            except SymLeak as e:
+                raise Unsupported("dict lookup needs model: %s" % e)
+            except TypeError as e:
+                raise PyExc(TypeError, e.args)
+        for k in list(d):
+            kv = unkey(k)
+            if type(kv) is Sym or type(key) is Sym:
+                if (type(kv) is Sym or isinstance(kv, (int, float, np.number))) and (type(key) is Sym or isinstance(key, (int, float, np.number))):
+                    if self.truth(self.compare(ast.Eq, kv, key)):
+                        return k
+            else:
+                try:
+                    if kv == key:
+                        return k
+                except SymLeak as e:
+                    raise Unsupported("dict lookup needs model: %s" % e)
+        return _MISSING
+
     def sym_dict_get(self, d, key):
-        for k in d:
-            if isinstance(k, (int, float, np.number)) and not isinstance(k, bool):
-                if self.truth(self.compare(ast.Eq, k, key)):
-                    return d[k]
-        raise PyExc(KeyError, (key,))
+        k = self.dict_find(d, key)
+        if k is _MISSING:
+            raise PyExc(KeyError, (key,))
+        return d[k]
 
     def setitem(self, o, i, v):
         if type(o) is NDArr:
@@ -1656,8 +1718,14 @@ class Interp:
                 raise PyExc(TypeError, ("'%s' object does not support item assignment" % o.cls.__name__,))
             self.call(self.bind(f[0], o, f[1]), [i, v], {})
             return
+        if isinstance(o, dict) and (type(i) is Sym or any(type(k) is SymKey for k in o)):
+            k = self.dict_find(o, i)
+            if k is _MISSING:
+                k = SymKey(i) if type(i) is Sym else i
+            o[k] = v
+            return
         if type(i) is Sym:
-            raise Unsupported("symbolic index/key assignment")
+            raise Unsupported("symbolic index assignment into %r" % type(o))
         try:
             o[i] = v
         except SymLeak as e:
@@ -1666,6 +1734,12 @@ class Interp:
             raise PyExc(type(e), e.args)
 
     def delitem(self, o, i):
+        if isinstance(o, dict) and (type(i) is Sym or any(type(k) is SymKey for k in o)):
+            k = self.dict_find(o, i)
+            if k is _MISSING:
+                raise PyExc(KeyError, (i,))
+            del o[k]
+            return
         if type(i) is Sym or type(o) in (SObj, NDArr):
             raise Unsupported("del with symbolic key / on model object")
         try:
@@ -1673,6 +1747,8 @@ class Interp:
         except (KeyError, IndexError, TypeError) as e:
             raise PyExc(type(e), e.args)
 
+
+_MISSING = object()
 
 _NATIVE = {
     ast.Add: lambda a, b: a + b, ast.Sub: lambda a, b: a - b, ast.Mult: lambda a, b: a * b,
